@@ -42,8 +42,11 @@ Theorem gen_init_eq (draw : nat -> pyv) (gsize batch_size : nat) :
   if Nat.leb gsize 0 then None
   else Some (batch_size, fst (st_of (cinit Z (cdraw_of_py draw))), snd (st_of (cinit Z (cdraw_of_py draw)))).
 Proof.
-  unfold batch_init. destruct (Nat.leb gsize 0); [reflexivity|].
-  cbv zeta. rewrite (normalise_init (draw 0)). reflexivity.
+  (* by cases on the kind of the first draw: insensitive to how the source spells the
+     Tensor -> [Tensor] / tuple -> list normalisation (inline ifs, a helper, temporaries) *)
+  unfold batch_init. destruct gsize as [|g']; [reflexivity|].
+  cbn [Nat.leb Nat.ltb negb]. cbv zeta. unfold cinit, cdraw_of_py, st_of. cbn [fst snd ccached ctaken].
+  destruct (draw 0); reflexivity.
 Qed.
 
 (* the while loop *)
@@ -53,8 +56,11 @@ Theorem gen_loop_eq (draw : nat -> pyv) (size : nat) : forall fuel cs t,
 Proof.
   induction fuel as [|f IH]; intros cs t; cbn [batch_get_examples_loop crefill ccached ctaken as_seq];
     destruct cs as [|c0 rest]; cbn [index0]; try reflexivity;
-    destruct (Nat.ltb (length c0) size); try reflexivity.
-  cbv zeta. rewrite wrap_tensor_seq, zipwith_cat2. cbn [as_seq]. apply IH.
+    repeat rewrite Nat.leb_antisym; repeat rewrite negb_involutive;
+    destruct (Nat.ltb (length c0) size); cbn [negb]; try reflexivity.
+  cbv zeta. change (cdraw_of_py draw t) with (cols_of (draw t)).
+  destruct (draw t); cbn [is_tensor is_tuple is_list as_tensor as_seq cols_of];
+    rewrite zipwith_cat2; apply IH.
 Qed.
 
 (* one get_examples() call *)
